@@ -4,6 +4,7 @@
 //	EntryPoints.v  one row per public log-issuing function or method
 //	Decisions.v    Gallina translations of the small decision functions
 //	PanicSites.v   panic( / os.Exit( / single-value type assertions per function
+//	CallerSites.v  getpc's runtime.Callers argument and the two adapter sites (callersites.go)
 //
 // A file is rewritten only when its content changes (so make stays a no-op on
 // an unchanged tree).  Status goes to /verif/run/extract_status.json.
@@ -70,6 +71,7 @@ func main() {
 	writeIfChanged(filepath.Join(*out, "EntryPoints.v"), genEntryPoints())
 	writeIfChanged(filepath.Join(*out, "Decisions.v"), genDecisions())
 	writeIfChanged(filepath.Join(*out, "PanicSites.v"), genPanicSites())
+	writeIfChanged(filepath.Join(*out, "CallerSites.v"), genCallerSites())
 	b, _ := json.MarshalIndent(status, "", " ")
 	os.MkdirAll(filepath.Dir(statusPath), 0o755)
 	os.WriteFile(statusPath, b, 0o644)
